@@ -947,5 +947,5 @@ def spec_guard(fr):
 
 BUILTINS = {"len", "range", "min", "max", "abs", "int", "bool", "list", "tuple", "iter", "next", "isinstance",
             "callable", "zip", "enumerate", "map", "any", "all", "round", "chr", "ord", "str", "bytes", "print",
-            "cast", "setattr", "getattr", "hasattr", "sum", "float", "dict", "sorted", "reversed", "super", "set",
+            "cast", "setattr", "getattr", "hasattr", "sum", "float", "dict", "sorted", "reversed", "super", "set", "frozenset",
             "bytearray", "type", "id", "repr", "object"}
